@@ -294,6 +294,7 @@ type FuncResult struct {
 
 func (e *Engine) newFnCtx(key string) *FnCtx {
 	defTable = map[string]*Term{}
+	hselMemo = map[string]*Term{}
 	return &FnCtx{eng: e, sc: NewScript(), key: shortName(key), initHeaps: map[string]*Term{}, heapSorts: map[string]Sort{},
 		kindCount: map[string]int{}, assumptions: map[string]bool{}, inlined: map[string]bool{}, usedContracts: map[string]bool{},
 		ifaceAsserts: map[int]types.Type{}, concreteTags: map[int]types.Type{}, closures: map[string]*closureRec{}, initGhosts: map[string]*Term{}}
@@ -414,6 +415,30 @@ func (e *Engine) VerifyFunc(key string) (res *FuncResult) {
 
 // finishScript adds facts about type tags (implements relations) at the front of every query.
 func (fc *FnCtx) finishScript() {
+	if fc.usesPtrTag {
+		for ctag, ct := range fc.concreteTags {
+			_, isPtr := ct.Underlying().(*types.Pointer)
+			if fc.sc.funcs["ptrtag"] {
+				t := app(SBool, "ptrtag", IntLit(int64(ctag)))
+				if !isPtr {
+					t = Not(t)
+				}
+				fc.sc.preFacts = append(fc.sc.preFacts, t.S)
+			}
+			if fc.sc.funcs["elemtag"] {
+				hasElem := isPtr
+				switch ct.Underlying().(type) {
+				case *types.Slice, *types.Array, *types.Map, *types.Chan:
+					hasElem = true
+				}
+				t := app(SBool, "elemtag", IntLit(int64(ctag)))
+				if !hasElem {
+					t = Not(t)
+				}
+				fc.sc.preFacts = append(fc.sc.preFacts, t.S)
+			}
+		}
+	}
 	for itag, it := range fc.ifaceAsserts {
 		name := fmt.Sprintf("impl!%d", itag)
 		iface := it.Underlying().(*types.Interface)
